@@ -36,6 +36,8 @@ void harness(void)
 		CHECK((sum & 0xff) == data[1], "C12: byte sum equals the checksum byte");
 		CHECK(minlen + plen <= hl, "C12: name length fits inside the header");
 		CHECK(st_pos == hl + 2, "C05: member data is found immediately after the header");
+		CHECK(h->raw_data_len == hl + 2, "C05/C12: the raw header is exactly the header's own bytes");
+		for (i = 0; i < S_MAX; ++i) if (i < hl + 2) CHECK(h->raw_data[i] == data[i], "C05/C12: the raw header copy (over which a common CRC is later computed) is the input bytes, unmodified");
 		/* fields */
 		CHECK(h->compress_method[0] == (char) data[2] && h->compress_method[1] == (char) data[3] && h->compress_method[2] == (char) data[4]
 		      && h->compress_method[3] == (char) data[5] && h->compress_method[4] == (char) data[6] && h->compress_method[5] == 0, "C05: method field");
@@ -89,7 +91,7 @@ void harness(void)
 			}
 		}
 		if (level == 1 && plen == 3 && hl == 28) WITNESS("level 1, 3-byte name");
-		if (level == 0 && plen == 2 && hl == 36) WITNESS("level 0 with Unix area");
+		if (level == 0 && plen == 0 && hl == 34) WITNESS("level 0 with Unix area");
 	} else {
 		/* completeness direction for well-formed input: a header that satisfies all rules is accepted */
 		unsigned good = hl >= minlen && hl + 2 <= slen && minlen + plen <= hl;
